@@ -656,6 +656,8 @@ def run(rd, emit, log, enum_values, ti_default):
         if origin_rule and len(re.findall(r'->FromZone=', mc)) != 2:
             origin_rule = None
     shapes['MessageHandler origin'] = origin_rule is not None
+    shapes['Zone parent not global'] = re.search(
+        r'void ?Zone::OnAllConfigLoaded\(\)\{[^}]*m_Parent=Zone::GetByName\(GetParentRaw\(\)\);if\(m_Parent&&m_Parent->IsGlobal\(\)\)BOOST_THROW_EXCEPTION\(', z) is not None
     j = compact(strip_comments(rd('lib/remote/jsonrpcconnection.cpp')))
     shapes['ctor endpoint iff authenticated'] = 'if(authenticated)m_Endpoint=Endpoint::GetByName(identity);' in j
     e = compact(strip_comments(rd('lib/remote/endpoint.cpp')))
